@@ -312,6 +312,13 @@ class SimpleGPCsv(Facet):
             for k in range(case["n_extra"]):
                 extras[f"X{k}"] = (lambda k: (lambda p: f"x{k}:{canon_nodes(canon(p, info)) * (k + 1)}"))(k)
 
+            # node classes whose text does not identify the program (a pretty-printer that elides
+            # sub-terms): the Phenotype column is then the same for different programs, and the rows are
+            # judged through the first extra field instead
+            lossy = case["seed"] % 2 == 1 and case["n_extra"] >= 1
+            if lossy:
+                mat.classes["C1"].__str__ = lambda self: "C1(..)"
+                rec.label("program-text-not-injective")
             # one objective may also be declared the multi-objective way: minimize=[b], fitness [v]
             list1 = (not case["multi"]) and case["seed"] % 3 == 0
 
@@ -350,6 +357,18 @@ class SimpleGPCsv(Facet):
                     rec.fail("C20/simplegp/row-width", f"row {ri}: {len(row)} cells for {len(header)} columns")
                     return
                 n = row[1].count("C0(") + row[1].count("C1(")
+                if lossy:
+                    try:
+                        n = int(row[2 + k].split(":")[1])
+                    except Exception:  # noqa: BLE001
+                        rec.fail("C20/simplegp/cell-mismatch/extra-field", f"row {ri}: column X0 = {row[2 + k]!r} is not what the callback returns")
+                        return
+                    if [float(row[2 + c]) for c in range(k)] != ([float(n % 5), float(n % 3)] if case["multi"] else [float(n % 5)]):
+                        rec.fail(
+                            "C20/simplegp/cell-mismatch/extra-field-and-fitness-from-different-programs",
+                            f"row {ri} (program text {row[1]!r}, shared by different programs): the fitness columns {row[2:2 + k]} and the extra field X0 = {row[2 + k]!r} (node count {n}) cannot stem from one and the same program",
+                        )
+                        return
                 exp_f = [float(n % 5), float(n % 3)] if case["multi"] else [float(n % 5)]
                 for c in range(k):
                     if float(row[2 + c]) != exp_f[c]:
